@@ -16,7 +16,14 @@ pub enum Content {
     Noise(usize),
     /// `len` bytes of a short repeating text (compressible)
     Text(usize),
+    /// a kernel-backed source (`/proc/sys/kernel/ostype`): stat reports size 0, reading yields "Linux\n";
+    /// mode 0444, modification time decided by the kernel (later than any source date used here)
+    Kernel,
+    /// the generated file reached through a symbolic link
+    Linked(Box<Content>),
 }
+
+pub const KERNEL_SOURCE: &str = "/proc/sys/kernel/ostype";
 
 impl Content {
     pub fn materialize(&self) -> Vec<u8> {
@@ -36,12 +43,20 @@ impl Content {
                 out
             }
             Content::Text(n) => b"the quick brown fox jumps over the lazy dog\n".iter().cycle().take(*n).copied().collect(),
+            Content::Kernel => std::fs::read(KERNEL_SOURCE).unwrap_or_else(|e| crate::ctx::machinery(&format!("{}: {}", KERNEL_SOURCE, e))),
+            Content::Linked(c) => c.materialize(),
         }
+    }
+    /// false if the source's modification time is not under the harness's control
+    pub fn mtime_known(&self) -> bool {
+        !matches!(self, Content::Kernel)
     }
     pub fn len(&self) -> usize {
         match self {
             Content::Bytes(b) => b.len(),
             Content::Noise(n) | Content::Text(n) => *n,
+            Content::Kernel => self.materialize().len(),
+            Content::Linked(c) => c.len(),
         }
     }
     pub fn to_json(&self) -> Value {
@@ -50,6 +65,8 @@ impl Content {
             Content::Bytes(b) => json!({"bytes_len": b.len(), "sha256": crate::oracles::sha256_hex(b)}),
             Content::Noise(n) => json!({"noise": n}),
             Content::Text(n) => json!({"text": n}),
+            Content::Kernel => json!({"kernel_file": KERNEL_SOURCE}),
+            Content::Linked(c) => json!({"through_symlink": c.to_json()}),
         }
     }
 }
@@ -480,6 +497,20 @@ impl Env {
     }
     pub fn source(&self, c: &Content, perms: u32, mtime: u32) -> PathBuf {
         use std::os::unix::fs::PermissionsExt;
+        if let Content::Kernel = c {
+            return PathBuf::from(KERNEL_SOURCE);
+        }
+        if let Content::Linked(inner) = c {
+            let real = self.source(inner, perms, mtime);
+            let mut g = self.files.lock().unwrap();
+            if let Some(p) = g.get(&(c.clone(), perms, mtime)) {
+                return p.clone();
+            }
+            let p = self.dir.join(format!("src-{}-link", g.len()));
+            std::os::unix::fs::symlink(&real, &p).unwrap_or_else(|e| crate::ctx::machinery(&format!("symlink source: {}", e)));
+            g.insert((c.clone(), perms, mtime), p.clone());
+            return p;
+        }
         let mut g = self.files.lock().unwrap();
         if let Some(p) = g.get(&(c.clone(), perms, mtime)) {
             return p.clone();
